@@ -96,7 +96,8 @@ pub fn run(outdir: &str, seed: u64, thorough: bool) -> serde_json::Value {
     let m = if thorough { 40000 } else { 2000 };
     for i in 0..m {
         let mut r = rng.fork();
-        let tys: Vec<Ty> = (0..3).map(|_| { let t = gen_ty(&mut r, 0); if r.chance(1, 3) { Ty::Opt(Box::new(t)) } else { t } }).collect();
+        let mut tys: Vec<Ty> = (0..3).map(|_| { let t = gen_ty(&mut r, 0); if r.chance(1, 3) { Ty::Opt(Box::new(t)) } else { t } }).collect();
+        if r.chance(1, 3) { let k = r.below(3) as usize; tys[k] = Ty::Bool(match r.below(4) { 0 => vec![true], 1 => vec![false], _ => vec![false, true] }); }
         let st_ty = DataType::structured(COLS.iter().zip(tys.iter()).map(|(c, t)| (*c, to_dt(t))).collect::<Vec<_>>());
         fn gen_q(r: &mut Rng, tys: &[Ty], depth: u32) -> Expr {
             let col = |r: &mut Rng| Expr::col(COLS[r.below(3) as usize]);
@@ -115,7 +116,10 @@ pub fn run(outdir: &str, seed: u64, thorough: bool) -> serde_json::Value {
                         Expr::Value(Value::Float(_)) => Expr::in_list(Expr::col(COLS[i]), Expr::list(vals.iter().filter_map(|v| if let Expr::Value(Value::Float(x)) = v { Some(**x) } else { None }).collect::<Vec<f64>>())),
                         Expr::Value(Value::Text(_)) => Expr::in_list(Expr::col(COLS[i]), Expr::list(vals.iter().filter_map(|v| if let Expr::Value(Value::Text(x)) = v { Some((**x).clone()) } else { None }).collect::<Vec<String>>())),
                         _ => Expr::eq(Expr::col(COLS[i]), vals[0].clone()) } }
-                4 => Expr::not(Expr::is_null(col(r))),
+                4 => if r.chance(1, 2) { Expr::not(Expr::is_null(col(r))) } else {
+                    // a bare column as predicate (WHERE flag): boolean columns first, any column otherwise
+                    let bools: Vec<usize> = (0..3).filter(|j| matches!(&tys[*j], Ty::Bool(_)) || matches!(&tys[*j], Ty::Opt(x) if matches!(**x, Ty::Bool(_)))).collect();
+                    if !bools.is_empty() { Expr::col(COLS[*r.pick(&bools)]) } else { col(r) } },
                 5 | 6 => Expr::and(gen_q(r, tys, depth - 1), gen_q(r, tys, depth - 1)),
                 _ => Expr::or(gen_q(r, tys, depth - 1), gen_q(r, tys, depth - 1)),
             }
